@@ -146,6 +146,70 @@ theorem run_confined (fs : FS) (cwd : RPath) (dest loc : Str) (ans : UrlAns) (oc
       have := (h4 hm).1
       rw [hop] at this; cases this
 
+/-- **Re-opening is idempotent.**  A later object with the same Content-Location ("existing files will be
+    overwritten"): after a successful `open`, opening the same location again in the resulting filesystem creates no
+    directory, truncates the very same file and changes nothing else. -/
+theorem reopen_idempotent (fs : FS) (cwd : RPath) (dest loc : Str) (ans : UrlAns)
+    (hb : builderNew fs cwd dest = true) (dst : Str) (f : RPath) (fresh : Bool)
+    (hop : (PathMap.open fs cwd dest loc ans).opened = some (dst, f, fresh)) :
+    PathMap.open (PathMap.open fs cwd dest loc ans).fs cwd dest loc ans =
+      ⟨(PathMap.open fs cwd dest loc ans).fs, [], some (dst, f, false)⟩ := by
+  obtain ⟨hdne, hw⟩ := builder_dest fs cwd dest hb
+  have hcne : components dest ≠ [] := by
+    intro h; unfold builderNew isDirC at hb; simp [h] at hb
+  cases hm : mapLoc loc ans with
+  | none => simp [PathMap.open, hm] at hop
+  | some rel =>
+    have hrel : relOk rel = true := by
+      unfold mapLoc at hm
+      split at hm
+      · cases hm
+      · split at hm
+        · injection hm with hm; rw [← hm]; assumption
+        · cases hm
+    simp only [PathMap.open, hm] at hop ⊢
+    exact openAt_again fs cwd dest rel _ hw hdne hcne hrel dst f fresh hop
+
+/-- **The repair changes nothing for accepted locations**: whenever the location is mappable, `open` behaves exactly
+    as the code before the repair did (same filesystem, same directories, same file). -/
+theorem accepted_unchanged (fs : FS) (cwd : RPath) (dest loc : Str) (ans : UrlAns)
+    (h : mapLoc loc ans ≠ none) :
+    PathMap.open fs cwd dest loc ans = openV0 fs cwd dest loc ans := by
+  unfold PathMap.open openV0
+  unfold mapLoc at h ⊢
+  cases hc : contentLocationPath loc ans with
+  | none => simp [hc] at h
+  | some clp =>
+    simp only [hc] at h ⊢
+    by_cases hr : relOk (stripSlash clp) = true
+    · simp [hr]
+    · simp [hr] at h
+
+/-- **Every plain file name is accepted**, whatever its bytes (percent signs, backslashes, non-ASCII ... are not
+    interpreted): a URL path `/<name>` (e.g. `file:///hello`) or a bare relative reference `<name>` with a non-empty
+    name other than `.` and `..` and without '/' maps to `<name>`. -/
+theorem plain_name_accepted (name : Str) (h47 : 47 ∉ name) (hne : name ≠ []) (hd : name ≠ [46])
+    (hdd : name ≠ [46, 46]) (loc : Str) :
+    mapLoc loc (.ok (47 :: name)) = some name ∧ mapLoc name .relativeUrlWithoutBase = some name := by
+  have hs : stripSlash name = name := by
+    cases name with
+    | nil => rfl
+    | cons c r =>
+      have : c ≠ 47 := fun hc => h47 (by simp [hc])
+      simp [stripSlash, this]
+  have hrel : relOk name = true := by
+    have hroot : hasRoot name = false := by
+      cases name with
+      | nil => rfl
+      | cons c r =>
+        have : c ≠ 47 := fun hc => h47 (by simp [hc])
+        simp [hasRoot, this]
+    unfold relOk components
+    simp [hroot, splitSlash_noslash name h47, hd, parseSingle, hne, hdd, Comp.isNormal]
+  constructor
+  · simp [mapLoc, contentLocationPath, stripSlash, hrel]
+  · simp [mapLoc, contentLocationPath, hs, hrel]
+
 /-! ### the defect (D9) on the code before the repair -/
 
 /-- a tiny filesystem: `/`, `/s`, `/s/dest` are directories -/
